@@ -34,6 +34,8 @@ const FromC froms[] = {
     { "contact-bare", "contact@example.net", MustNot },
     { "contact-full", "contact@example.net/res", MustNot },
     { "own-bare-with-empty-resource", "user@example.org/", MustNot },
+    // the sender is the contact; an attribute named 'from' in ANOTHER namespace carries the own bare JID (attribute spliced in through the quote)
+    { "contact-plus-foreign-namespace-from-attribute", "contact@example.net/res' xmlns:x='urn:verif:x' x:from='user@example.org", MustNot },
 };
 const int NFROM = sizeof(froms) / sizeof(froms[0]);
 
